@@ -277,7 +277,13 @@ func judge(cs caseT, o observed) engine.Result {
 			"the Location is neither the requested nor the default logout URI | "+desc())
 	case "redirect-requested":
 		if !e.mayRequested {
-			return engine.Bad(e.rule, outcome, "C18/redirect-to-unregistered-uri/"+R+"/"+strings.TrimPrefix(e.rule, cs.hint.family+":")+"/"+cs.uri.class,
+			// input class: how the URI misses the registration, or - when the fault is in
+			// determining the proven client - which clause left no proven client
+			class := cs.uri.class
+			if short := strings.TrimPrefix(e.rule, cs.hint.family+":"); !strings.HasPrefix(short, "not-registered") {
+				class = short
+			}
+			return engine.Bad(e.rule, outcome, "C18/redirect-to-unregistered-uri/"+R+"/"+class,
 				"redirected to a requested URI that is not registered for the proven client | "+desc())
 		}
 	case "redirect-default":
